@@ -256,7 +256,9 @@ def deserialize_address(address, encoding=None, network=None):
 
     if encoding is None or encoding == 'base58':
         try:
-            address_bytes = change_base(address, 58, 256, 25)
+            address_bytes = change_base(address, 58, 256)
+            if len(address_bytes) != 25:
+                raise EncodingError("Invalid address length, should be 25 bytes not %d" % len(address_bytes))
         except EncodingError:
             pass
         else:
